@@ -37,9 +37,14 @@ def validNameBytes (bs : List Nat) : Bool :=
 def validName (s : String) : Bool :=
   validNameBytes (s.toUTF8.toList.map (·.toNat))
 
-/-- `key.trim().is_empty()` for the ASCII keys used here (whitespace only). -/
+/-- `char::is_whitespace` (Unicode `White_Space`) -/
+def isWhitespace (c : Nat) : Bool :=
+  (9 ≤ c && c ≤ 13) || c == 32 || c == 133 || c == 160 || c == 5760 || (8192 ≤ c && c ≤ 8202) ||
+    c == 8232 || c == 8233 || c == 8239 || c == 8287 || c == 12288
+
+/-- `key.trim().is_empty()`: nothing but white space -/
 def blankKey (k : String) : Bool :=
-  k.toList.all (fun c => c == ' ' || c == '\t' || c == '\n' || c == '\r')
+  k.toList.all (fun c => isWhitespace c.toNat)
 
 /-! ## auth.rs -/
 
@@ -436,6 +441,145 @@ def handle (cfg : Cfg) (s : State) (r : Request) : State × Response :=
   | .db n, .post => rpc cfg s (.database n) r
   | .badUtf8, .post => (s, ⟨negotiateOr r.accept r.contentType .cbor, .http 400, none⟩)
   | _, _ => (s, ⟨negotiateOr r.accept r.contentType .cbor, .http 405, none⟩)
+
+/-! ## Routing: from the raw request target to the addressed scope
+
+`build_router` registers `/` and `/{db_name}` (matchit): the query is not part of the path, a capture
+is one non-empty segment of the *raw* path (an encoded `%2F` does not split it), and both the `Path`
+extractor of `rpc_db` and `RawPathParams` in `require_auth` percent-decode the capture
+(`percent_encoding::percent_decode(..).decode_utf8()`: malformed `%` sequences are kept literally,
+the result must be UTF-8). The decoded string is the name `authorize` looks the binding up with and
+`dispatch_db` hands to `get_db` — nothing in the query string or the body can change it. -/
+
+def hexVal (b : Nat) : Option Nat :=
+  if 48 ≤ b ∧ b ≤ 57 then some (b - 48)
+  else if 97 ≤ b ∧ b ≤ 102 then some (b - 87)
+  else if 65 ≤ b ∧ b ≤ 70 then some (b - 55)
+  else none
+
+def percentDecodeAux : Nat → List Nat → List Nat
+  | 0, bs => bs
+  | _, [] => []
+  | fuel + 1, b :: tl =>
+    if b = 37 then
+      match tl with
+      | h :: l :: rest =>
+        match hexVal h, hexVal l with
+        | some x, some y => (x * 16 + y) :: percentDecodeAux fuel rest
+        | _, _ => 37 :: percentDecodeAux fuel tl
+      | _ => 37 :: percentDecodeAux fuel tl
+    else b :: percentDecodeAux fuel tl
+
+def percentDecode (bs : List Nat) : List Nat := percentDecodeAux (bs.length + 1) bs
+
+def isCont (b : Nat) : Bool := 128 ≤ b && b ≤ 191
+
+/-- strict UTF-8 (`str::from_utf8`): no overlong forms, no surrogates, nothing above U+10FFFF;
+returns the code points -/
+def utf8DecodeAux : Nat → List Nat → Option (List Nat)
+  | 0, _ => none
+  | _, [] => some []
+  | fuel + 1, b0 :: rest =>
+    if b0 < 128 then (utf8DecodeAux fuel rest).map (b0 :: ·)
+    else if 194 ≤ b0 ∧ b0 ≤ 223 then
+      match rest with
+      | b1 :: r =>
+        if isCont b1 then (utf8DecodeAux fuel r).map (((b0 - 192) * 64 + (b1 - 128)) :: ·) else none
+      | _ => none
+    else if 224 ≤ b0 ∧ b0 ≤ 239 then
+      match rest with
+      | b1 :: b2 :: r =>
+        let lo := if b0 = 224 then 160 else 128
+        let hi := if b0 = 237 then 159 else 191
+        if lo ≤ b1 ∧ b1 ≤ hi ∧ isCont b2 then
+          (utf8DecodeAux fuel r).map (((b0 - 224) * 4096 + (b1 - 128) * 64 + (b2 - 128)) :: ·)
+        else none
+      | _ => none
+    else if 240 ≤ b0 ∧ b0 ≤ 244 then
+      match rest with
+      | b1 :: b2 :: b3 :: r =>
+        let lo := if b0 = 240 then 144 else 128
+        let hi := if b0 = 244 then 143 else 191
+        if lo ≤ b1 ∧ b1 ≤ hi ∧ isCont b2 ∧ isCont b3 then
+          (utf8DecodeAux fuel r).map
+            (((b0 - 240) * 262144 + (b1 - 128) * 4096 + (b2 - 128) * 64 + (b3 - 128)) :: ·)
+        else none
+      | _ => none
+    else none
+
+def utf8Decode (bs : List Nat) : Option String :=
+  (utf8DecodeAux (bs.length + 1) bs).map fun cps => String.ofList (cps.map Char.ofNat)
+
+/-- the path without its query (`?` = 63) -/
+def pathOnly (target : List Nat) : List Nat := target.takeWhile (· ≠ 63)
+
+/-- Which route a raw request target (path and query, as bytes) reaches and which database it
+addresses. -/
+def routePath (target : List Nat) : Target :=
+  match pathOnly target with
+  | 47 :: rest =>
+    if rest.isEmpty then .root
+    else if rest.contains 47 then .unrouted
+    else match utf8Decode (percentDecode rest) with
+      | some name => .db name
+      | none => .badUtf8
+  | _ => .unrouted
+
+/-- a request whose target is given raw -/
+def routed (r : Request) (target : List Nat) : Request := { r with target := routePath target }
+
+/-! ## What a rejection looks like on the wire -/
+
+def asciiBytes (s : String) : List Nat := s.toList.map (·.toNat)
+
+/-- CBOR text string (definite length below 256) -/
+def cborText (s : String) : List Nat :=
+  let b := asciiBytes s
+  (if b.length < 24 then [96 + b.length] else [120, b.length]) ++ b
+
+/-- `ErrorEnvelope` as `cbor2` / `serde_json` write it (messages without characters to escape) -/
+def errorBody (enc : Enc) (code msg : String) : List Nat :=
+  match enc with
+  | .cbor => [161] ++ cborText "error" ++ [162] ++ cborText "code" ++ cborText code ++ cborText "message" ++ cborText msg
+  | .json => asciiBytes ("{\"error\":{\"code\":\"" ++ code ++ "\",\"message\":\"" ++ msg ++ "\"}}")
+
+structure Wire where
+  status : Nat
+  headers : List (String × String)
+  body : List Nat
+deriving DecidableEq, Repr
+
+def contentTypeOf : Enc → String
+  | .cbor => "application/cbor"
+  | .json => "application/json"
+
+/-- `ApiError::unauthorized().respond(enc)`: status, the complete header set, the body bytes -/
+def rejectionWire (enc : Enc) : Wire :=
+  let body := errorBody enc "unauthorized" "invalid or missing API key"
+  { status := 401,
+    headers := [("content-length", toString body.length), ("content-type", contentTypeOf enc)],
+    body := body }
+
+/-- the wire form of a response, for the replies whose bytes the model fixes (the rejection) -/
+def render (r : Response) : Option Wire :=
+  match r.reply with
+  | .err .unauthorized => some (rejectionWire r.enc)
+  | _ => none
+
+/-! ## Which storage a request may touch
+
+Every object of database `n` lives under the prefix `n/` (`Storage::connect(name, ..)`; collections
+under `n/<collection>/`); the registry and the key map live in the primary database's metadata
+object. A database-scope handler gets the `AndaDB` handle `get_db(db_name)` returned and (generated
+fact `principal_only_to_info`) neither `state` nor `db_name`: it can address `n/` only. -/
+
+/-- the database whose storage prefix the answer may have touched on the database route: the one a
+handler was reached for; every other answer of that route (rejection, 404 database not found,
+method_not_found, body / content-type errors, the `info` view) is given without any storage access -/
+def touchedDb (resp : Response) : Option String :=
+  match resp.reply with
+  | .handler n _ _ _ _ => some n
+  | _ => none
 
 /-- A clean stop followed by `AppState::connect` over the same store with the same options:
 the primary and every registered database that still exists are reopened, bindings are reloaded. -/
